@@ -263,6 +263,9 @@ func collectDefaults(doc any) (ptrs []string, vals []any) {
 }
 
 func (c15) Run(c *fw.Case) {
+	if c.Idx%6 == 5 {
+		failedCalls(c) // call history: failed calls before the case must leave nothing behind
+	}
 	r := c.R
 	g := &dgen{r: r, names: []string{"a", "b", "c", "é"}, noNull: c.Idx%3 != 0}
 	doc := g.node(0, c.Idx%2 == 0)
